@@ -21,7 +21,7 @@ func GenerateScalarSuperSetRule(in profile.ScalarSetRule, iriExpander *misc.IriE
 	rego = append(rego, fmt.Sprintf("%s_array = %s with data.sourceNode as %s", inValuesTestVariable, pathResult.rule, in.Variable.Name))
 	rego = append(rego, fmt.Sprintf("%s_scalar = %s_array[_]", inValuesTestVariable, inValuesTestVariable))
 	rego = append(rego, fmt.Sprintf("%s = as_string(%s_scalar)", inValuesTestVariable, inValuesTestVariable))
-	rego = append(rego, fmt.Sprintf("%s = { \"%s\"}", inValuesVariable, strings.Join(in.RegoValues(), "\",\"")))
+	rego = append(rego, fmt.Sprintf("%s = %s", inValuesVariable, regoStringSet(in.RegoValues())))
 	// Add the validation
 	if in.Negated {
 		rego = append(rego, fmt.Sprintf("%s[%s]", inValuesVariable, inValuesTestVariable))
@@ -45,4 +45,13 @@ func GenerateScalarSuperSetRule(in profile.ScalarSetRule, iriExpander *misc.IriE
 		Variable: inValuesTestVariable,
 	}
 	return []SimpleRegoResult{r}
+}
+
+// regoStringSet writes the arguments of a set constraint as a Rego set of strings; without arguments
+// that is the empty set, not the set holding the empty string.
+func regoStringSet(values []string) string {
+	if len(values) == 0 {
+		return "set()"
+	}
+	return fmt.Sprintf("{ \"%s\"}", strings.Join(values, "\",\""))
 }
